@@ -103,7 +103,22 @@ def strategy(ctx):
     load_flags(ctx)
     astral = 'no_astral_strings' not in gen_xpath.FLAGS
     return st.one_of(xpcase.cases(depth=3, astral=astral), xpcase.cases(depth=3, astral=astral), xpcase.cases(depth=2, astral=astral),
-                     syntax_cases(), ext_cases())
+                     syntax_cases(), ext_cases()).map(lambda c: apply_flags(c, ctx))
+
+
+def apply_flags(case, ctx):
+    """exclusion of open findings BY CONSTRUCTION (counted): the case that is returned is the case that is run, shrunk, saved and replayed"""
+    if case.get('docform') == 'xerces' and 'ns_axis_native_only' in gen_xpath.FLAGS and re.search(r'namespace\s*::', case['expr']):
+        gen_xpath.COUNTS['ns_axis_native_only'] += 1
+        ctx.excluded['ns_axis_native_only'] += 1
+        case = dict(case, docform='native')
+    if case.get('docform') == 'xerces' and '<!DOCTYPE' in case['xml'] and 'doctype_native_only' in gen_xpath.FLAGS:
+        ctx.excluded['doctype_native_only'] += 1
+        case = dict(case, docform='native')
+    if case.get('docform') == 'xerces' and '<![CDATA[' in case['xml']:
+        # the Xerces DOM keeps CDATA sections as separate nodes: not the XPath data model (DESIGN: leniencies)
+        case = dict(case, docform='native')
+    return case
 
 
 def compare_value(ref, r, pfx='g'):
@@ -140,18 +155,6 @@ def check(ctx, case):
         prep = Prepared(case)
     except ValueError:
         return None
-    if case.get('docform') == 'xerces' and 'ns_axis_native_only' in gen_xpath.FLAGS and re.search(r'namespace\s*::', case['expr']):
-        gen_xpath.COUNTS['ns_axis_native_only'] += 1
-        ctx.excluded['ns_axis_native_only'] += 1
-        case = dict(case, docform='native')
-        prep.case = case
-    if case.get('docform') == 'xerces' and '<!DOCTYPE' in case['xml'] and 'doctype_native_only' in gen_xpath.FLAGS:
-        ctx.excluded['doctype_native_only'] += 1
-        case = dict(case, docform='native')
-        prep.case = case
-    if case.get('docform') == 'xerces' and '<![CDATA[' in case['xml']:
-        case = dict(case, docform='native')
-        prep.case = case
     expr = case['expr']
     kind = case.get('kind', '?')
     ext = ref_xpath.extension_functions() if kind == 'ext' else None
@@ -217,8 +220,25 @@ def check(ctx, case):
     d = compare_value(ref, r)
     if d:
         return {'what': 'value:' + d[0], 'expr': expr, 'expected': _j(d[1]), 'got': _j(d[2]), 'ctx': prep.ctx.key, 'pos': [prep.pos, prep.size],
-                'feats': sorted(feats), 'form': case.get('docform')}
+                'feats': sorted(feats), 'form': case.get('docform'), 'trig': triggers(case)}
     return None
+
+
+def triggers(case):
+    """the constructions open findings are about, as present in the case THAT WAS RUN (after by-construction exclusion): a finding's
+    signature requires its trigger, so it can never cover a failure of a case that does not contain it"""
+    t = []
+    expr = case['expr']
+    xerces = case.get('docform') == 'xerces'
+    if xerces and '<!DOCTYPE' in case['xml']:
+        t.append('xerces-doctype')
+    if xerces and re.search(r'namespace\s*::', expr):
+        t.append('xerces-nsaxis')
+    if re.search(r'(@|attribute\s*::)\s*(node|text|comment|processing-instruction)\s*\(', expr):
+        t.append('attr-node-test')
+    if any(ord(ch) > 0xFFFF for ch in expr + case['xml']):
+        t.append('astral')
+    return t
 
 
 def _j(v):
@@ -235,7 +255,10 @@ def signature(case, detail):
         msg = re.sub(r"\bat \d+.*$", '', str(detail.get('ref', '')))
         msg = re.sub(r"'\w[^']*'|\d+", '_', msg).strip()   # keep punctuation tokens, drop names / numbers
         return '%s|%s' % (detail['what'], msg[:70])
-    return '%s|%s' % (detail['what'], '+'.join(detail.get('feats', [])) if 'feats' in detail else _shape(detail.get('expr', '')))
+    sig = '%s|%s' % (detail['what'], '+'.join(detail.get('feats', [])) if 'feats' in detail else _shape(detail.get('expr', '')))
+    if detail['what'].startswith('value:'):
+        sig += '|' + ','.join(detail.get('trig', []))
+    return sig
 
 
 def _shape(expr):
